@@ -704,7 +704,7 @@ func deprecationIndependent(c *core.Ctx, p *load.Prog, rule string) {
 		}
 	}
 	c.Count("deprecated_member_sites", n)
-	c.Floor("deprecated_member_sites", 4)
+	c.Floor("deprecated_member_sites", 1)
 }
 
 // limitedBufio: R6. Comments, string literals and identifiers have no length
